@@ -20,6 +20,10 @@ add("C01", "harness", "exploration", "property-based testing: generated inputs x
     "Differential against the reference model M_fa over grammar-built documents, mutations and byte soups x capacities (absolute and aligned to record ends) x policies x chunk/interrupt scripts x three consumption modes; both directions (nothing lost, nothing invented, order). The thorough tier enumerates every string up to length 9 over a 5-symbol structural alphabet for capacities 3..12. Sampling beyond that scope: no proof of absence.",
     MODEL_NOTE)
 
+add("C02", "harness", "exploration", "property-based testing: generated inputs x configurations against an independent reference model (proptest) + exhaustive small-scope enumeration + libFuzzer with the same oracle (thorough)",
+    "Differential against the reference model M_fq (four-line groups, validation order start byte / separator byte / lengths, truncation and blank-tail rules) over grammar-built documents with a defect of each kind at a generated record index, truncation at every byte, mutations and soups x capacities aligned to record ends x policies x chunk scripts x three consumption modes. Exhaustive for all strings up to length 8 over {@,+,LF,CR,A} x capacities 3..12 in the thorough tier. The comparison stops at groups whose sequence and quality line use different terminators (outside the claimed domain).",
+    MODEL_NOTE)
+
 NOT_YET = "check under construction (framework being built); will be claimed once its command exists"
 
 def main():
